@@ -519,8 +519,7 @@ class ExtraOps:
             r = ops[1].mv
             if op.get("p") is not None and not pred_cols(op["p"]) <= (cols | set(r.cols)):
                 return "missing column in join predicate", (ColumnError,)
-            if t.engine != r.engine and not op.get("bt", True) and not op.get("tr", False) \
-                    and not any(o.rel.is_join_identity for o in ops):      # documented elision of a join identity
+            if t.engine != r.engine and not op.get("bt", True) and not op.get("tr", False):
                 return "join operands in different engines, no transfer allowed", (EngineError,)
         return None, ()
 
@@ -552,6 +551,7 @@ class ExtraOps:
         if inner["k"] in ("chain", "join") and any(M.is_sql(e.mv.engine) and e.mv.pending_sort for e in ops):
             return
         self.stats["ill:" + reason] += 1
+        self.stats["ill:total"] += 1
         route = "root"
         if inner.get("pe") is not None and inner.get("pe") != ops[0].mv.engine:
             route = "transferred" if inner.get("tr") and not inner.get("bt", True) else "backtracked"
